@@ -6,6 +6,6 @@ git -C /repo apply /verif/seeded/$name/patch.diff || { echo "$name: patch does n
 cd /verif && timeout 900 python3 tools/run.py check $prop > /tmp/try_$name.log 2>&1; rc=$?
 git -C /repo checkout -- .
 # files regenerated from the (changed) tree go back to what the restored tree gives
-(cd /verif && python3 -c "import sys; sys.path.insert(0,'tools'); import common, globals_scan; common.regen_consts(); globals_scan.generate()" >/dev/null 2>&1)
+(cd /verif && python3 -c "import sys; sys.path.insert(0,'tools'); import common, globals_scan; common.regen_consts(); common.regen_guards(); globals_scan.generate()" >/dev/null 2>&1)
 v=$(grep -c "^VIOLATION" /tmp/try_$name.log)
 echo "$name vs $prop: exit=$rc violations=$v $(grep '^VIOLATION' /tmp/try_$name.log | head -1 | cut -c1-120)"
